@@ -136,7 +136,7 @@ Qed.
 
 Theorem reachable_inv mn mr mp h b : run (init_bus mn mr mp) h = Some b -> inv b.
 Proof.
-  assert (H0 : inv (init_bus mn mr mp)) by (unfold inv; simpl; constructor).
+  assert (H0 : inv (init_bus mn mr mp)) by (unfold inv; simpl; split; constructor).
   revert H0. generalize (init_bus mn mr mp) as b1. induction h as [|e r IH]; intros b1 Hinv; simpl.
   - intros H; inversion H; subst; exact Hinv.
   - destruct (step b1 e) as [b2 o|] eqn:Es; [|discriminate]. apply IH. eapply step_inv; eauto.
